@@ -219,7 +219,9 @@ func (s *BaseVisitor) EnterOC_QueryOptions(c *parser.OC_QueryOptionsContext) {}
 
 func (s *BaseVisitor) EnterOC_AnyCypherOption(c *parser.OC_AnyCypherOptionContext) {}
 
-func (s *BaseVisitor) EnterOC_CypherOption(c *parser.OC_CypherOptionContext) {}
+func (s *BaseVisitor) EnterOC_CypherOption(c *parser.OC_CypherOptionContext) {
+	s.newUnsupportedRuleError(c)
+}
 
 func (s *BaseVisitor) EnterOC_VersionNumber(c *parser.OC_VersionNumberContext) {}
 
@@ -334,7 +336,9 @@ func (s *BaseVisitor) EnterOC_Limit(c *parser.OC_LimitContext) {}
 
 func (s *BaseVisitor) EnterOC_SortItem(c *parser.OC_SortItemContext) {}
 
-func (s *BaseVisitor) EnterOC_Hint(c *parser.OC_HintContext) {}
+func (s *BaseVisitor) EnterOC_Hint(c *parser.OC_HintContext) {
+	s.newUnsupportedRuleError(c)
+}
 
 func (s *BaseVisitor) EnterOC_StartPoint(c *parser.OC_StartPointContext) {}
 
